@@ -413,9 +413,12 @@ PROPS = {
         trusted=["looplab/fsm semantics: first matching (event, source) transition; same-state transitions are swallowed by HandleApplicationEvent"],
         assumptions=[],
         level_text="Lean 4 proofs over the transition table REGENERATED from application_state.go: for all states a != b, some event moves a to b iff the documented life cycle has the edge; every event history yields a state log of documented edges; "
-                   "terminal states only expire; the callbacks that maintain the running counter / run the terminated callback / arm the completing timer are the expected ones.",
-        level_note="trusted: Lean kernel, translator T2, looplab/fsm library semantics; application object behaviour (asks/allocations driving the events) is covered by the full-stack monitors",
-        technique="Lean 4 proof by exhaustive case analysis over a table regenerated from source (T2)",
+                   "terminal states only expire; the callbacks that maintain the running counter / run the terminated callback / arm the completing timer are the expected ones. "
+                   "Over the 21-operation stepped model of the partition (asks, scheduling, swaps, every release type, node and application removal, timers), by induction over every history: terminated applications leave and a Completed one holds nothing, "
+                   "a Completing application holds no real allocation, and (outstanding_ask_not_completed, full statement since the repair 20ee082 of the roll-back path: DeallocateAsk runs the application again) an application with an outstanding ask is neither Completing nor Completed; "
+                   "the stepped model is tied to the code line by line by the full-stack check (every line of a history is stepped from the implementation's previous dump and compared).",
+        level_note="trusted: Lean kernel, translator T2, looplab/fsm library semantics; the application object's behaviour is the stepped model's, tied to the code by the one-step correspondence of the full-stack check",
+        technique="Lean 4 proof: exhaustive case analysis over a table regenerated from source (T2) + invariants by induction over the histories of the stepped partition model, tied to the code by a one-step correspondence check",
         design_ref="DESIGN.md section 4 C10",
     ),
     "C03": dict(
